@@ -82,3 +82,64 @@ CONTRACTS = {
 GROUND = []
 BOUNDED = []
 CLASSES = {}
+
+
+# ---------------------------------------------------------------- column specification styles follow the column a cell starts in
+ALIGN = {'l': 'left', 'c': 'center', 'r': 'right'}
+
+
+def check_colspec(w):
+    spec, rows = w['spec'], w['rows']
+    cols = [ch for ch in spec if ch in 'lcr']
+    t = TeX()
+    body = ' \\\\ '.join(' & '.join(('\\multicolumn{%d}{c}{m}' % s) if s > 1 else 'y' for s in r) for r in rows)
+    t.input('\\documentclass{article}\\begin{document}\\begin{tabular}{%s}%s\\end{tabular}\\end{document}' % (spec, body))
+    tab = t.parse().getElementsByTagName('tabular')[0]
+    for row, spans in zip(tab, rows):
+        col = 0
+        for cell, s in zip(row, spans):
+            if s == 1 and col < len(cols):
+                want = ALIGN[cols[col]]
+                if cell.style.get('text-align') != want:
+                    return False, 'spec %r row %r: cell starting in column %d has text-align %r, expected %r' % (spec, spans, col + 1, cell.style.get('text-align'), want)
+            col += s
+    return True, ''
+
+
+def gen_colspec(rng):
+    n = rng.randrange(2, 6)
+    spec = ''.join(rng.choice('lcr') + rng.choice(['', '', '|']) for _ in range(n))
+    rows = []
+    for _ in range(rng.randrange(1, 4)):
+        r, left = [], n
+        while left > 0:
+            s = rng.choice([1, 1, 2, 3])
+            s = min(s, left)
+            r.append(s)
+            left -= s
+        rows.append(r)
+    return dict(spec=spec, rows=rows)
+
+
+def bounded_colspec(budget, rng):
+    import itertools
+    import time
+    t0, n = time.time(), 0
+    for spec in (''.join(p) for k in (2, 3) for p in itertools.product('lcr', repeat=k)):
+        for rows in ([[1] * len(spec)], [[2] + [1] * (len(spec) - 2)], [[1, 2] + [1] * (len(spec) - 3)] if len(spec) >= 3 else [[1, 1]]):
+            n += 1
+            w = dict(spec=spec, rows=rows)
+            ok, d = check_colspec(w)
+            if not ok:
+                return False, n, d, w
+    while time.time() - t0 < min(budget, 30) * 0.5:
+        n += 1
+        w = gen_colspec(rng)
+        ok, d = check_colspec(w)
+        if not ok:
+            return False, n, d, w
+    return True, n, ''
+
+
+BOUNDED.append(('bounded/colspec-styles', 'each cell takes the alignment of the column it starts in, also to the right of a multicolumn cell',
+                'all column specifications of 2-3 columns over l/c/r x three row shapes (exhaustive); random specs of 2-5 columns with | and random spans', bounded_colspec))
